@@ -9,7 +9,8 @@
 (* and the file system `fs` the calls read.  Contents are abstract classes:  *)
 (*   0 absent | 1 plain (one per-file finding) | 2 carries only the shared DRY    *)
 (*   block | 3 carries the shared string-set validation | 4 starts with an   *)
-(*   ignore-file directive (has findings, all suppressed)                    *)
+(*   ignore-file directive (has findings, all suppressed) | 5, 6 the plain   *)
+(*   finding suppressed by an inline directive, at two different lines       *)
 (*                                                                           *)
 (* Actions (one per public call / critical section):                        *)
 (*   Write(p,c), Delete(p)       the user edits the project                  *)
@@ -28,7 +29,7 @@ EXTENDS Naturals, Sequences, FiniteSets, TLC
 
 CONSTANTS Paths, MaxOps, DryResetOnFinalize, ApiFileFinalizes
 
-Contents == 1..4
+Contents == 1..6
 
 VARIABLES fs, dryRows, strRows, last, pure, hist
 
@@ -96,8 +97,8 @@ NoGhosts == [][last' # last => \A v \in last' : fs'[v[2]] # 0]_vars
 \* C10: a directory run is the union of the single-file runs for per-file findings
 UnionLaw == \A S \in SUBSET Present :
     {v \in Pure(S) : v[1] = "pf"} = UNION {{v \in Pure({p}) : v[1] = "pf"} : p \in S}
-TypeOK == /\ fs \in [Paths -> 0..4] /\ dryRows \subseteq (Paths \X (0..4))
-          /\ strRows \subseteq (Paths \X (0..4))
+TypeOK == /\ fs \in [Paths -> 0..6] /\ dryRows \subseteq (Paths \X (0..6))
+          /\ strRows \subseteq (Paths \X (0..6))
 
 Emit == Len(hist) = MaxOps => PrintT(<<"HIST", hist>>)
 =============================================================================
